@@ -7,7 +7,7 @@ From Centro Require Import Base.Sx Base.EmdBase Spec.Emd Model.Emd Model.EmdCert
   Proofs.EmdMcfCert Proofs.EmdHeapMem Proofs.EmdDijkstra Proofs.EmdDijkstraInit
   Proofs.EmdTight Proofs.EmdGhost Proofs.EmdCspPost Proofs.EmdPairAddr Proofs.EmdGraphShape Proofs.EmdAugment Proofs.EmdRun Proofs.EmdConserve Proofs.EmdConserveRun Proofs.EmdIndex Proofs.EmdOptimal Proofs.EmdWrap.
 From Centro Require Import Model.EmdAsIs Model.EmdW Proofs.EmdWrap2 Model.EmdP Proofs.EmdNoWrap.
-From Centro Require Import Model.EmdMcf Proofs.EmdProgLL Proofs.EmdEndToEnd.
+From Centro Require Import Model.EmdMcf Proofs.EmdProgLL Proofs.EmdEndToEnd Proofs.EmdConserve Proofs.EmdXCaps Proofs.EmdReadBack Proofs.EmdDist Proofs.EmdNoFail Proofs.EmdRun.
 Import ListNotations.
 Open Scope Z_scope.
 
@@ -704,22 +704,142 @@ Theorem C10_mcf_int32_optimal_below_bound : forall e c md x,
 Proof. exact mcf_int32_optimal_below_bound. Qed.
 Print Assumptions C10_mcf_int32_optimal_below_bound.
 
-(* C10_emd_int32_correct_below_bound — PARTIAL, end to end.  FULL statement aimed at: below the bound,
-   a finished run of emd_hat_gd_metric / emd_hat as written for int32 returns the earth mover's distance.
-   PROVED: under no_wrap_b (decidable, evaluated per case and variant) the as-written run returns
-   exactly the distance and flow of the flagged line-level model (as written = exact program
-   = line-level model), so any statement about the line-level answer is a statement about the int32 code.
-   REMAINING PREMISES, exactly: (i) flag clear — the answer of the flagged model carries false
-   (evaluated per case: never set below the bound; artificial_node_unused would discharge it);
-   (ii) read_back_bookkeeping (with x_caps_consistent): from the flag-clear line-level answer — whose
-   capacity flow is a minimum-cost flow by C10_mcf_int32_optimal_below_bound — to emd_spec; OPEN,
-   a premise on the instance.  mcf_no_fail_if_flag_clear is not needed here: the run is assumed finished. *)
-Theorem C10_emd_int32_correct_below_bound_partial : forall p q c pen ft gd d F,
+(* end to end, first link (full): under no_wrap_b (decidable, evaluated per case and variant) a finished
+   run of the int32 code as written returns exactly the distance and flow of the flagged line-level
+   model (as written = exact program = line-level model) *)
+Theorem C10_emd_int32_is_flagged_ll : forall p q c pen ft gd d F,
+  no_wrap_b p q c pen ft gd = true -> emd_int32_as_written p q c pen ft gd = (0, d, F) ->
+  exists fl, emd_hat_int32_llf p q c pen ft gd = Some (d, F, fl).
+Proof. exact emd_int32_is_flagged_ll. Qed.
+Print Assumptions C10_emd_int32_is_flagged_ll.
+
+(* ------------------------------------------------------------------------------------------------
+   Round 16.  read_back_bookkeeping, the solver half and the read-back half (the graph-reduction half
+   is what remains, see the end).
+   C10_x_caps_consistent — at Done of the flagged run with the flag clear, between ANY two nodes the x
+   lists that min_cost_flow returns (and read_back reads) carry the same NET flow as the backward
+   capacities, i.e. as the flow proved of minimum cost; and no entry of x points at its own node.
+   (capto t l = sum of the third components of the entries of l whose first component is t.) *)
+Theorem C10_x_caps_consistent : forall nv c, length c = nv -> forall e st fl, length e = nv ->
+  (forall l tc, In l c -> In tc l -> (fst tc < nv)%nat /\ 0 <= snd tc) ->
+  mcf_iter_f ssp_levels (mcf_init e c) false = (MDone st, fl) -> fl = false ->
+  (forall u v, capto v (nth u (m_x st) []) - capto u (nth v (m_x st) []) =
+               capto u (nth v (m_rb st) []) - capto v (nth u (m_rb st) [])) /\
+  (forall u, capto u (nth u (m_x st) []) = 0).
+Proof. exact x_caps_consistent. Qed.
+Print Assumptions C10_x_caps_consistent.
+
+(* the distance: x_dist of the returned lists = cost of the arc-indexed capacity flow *)
+Theorem C10_mcf_dist_is_capflow_cost : forall nv c, length c = nv ->
+  (forall l tc, In l c -> In tc l -> (fst tc < nv)%nat /\ 0 <= snd tc) ->
+  forall e st fl, length e = nv ->
+  mcf_iter_f ssp_levels (mcf_init e c) false = (MDone st, fl) -> fl = false ->
+  x_dist (m_x st) = gcost (sk_of c) (capflow c (m_rb st)).
+Proof. exact dist_is_capflow_cost. Qed.
+Print Assumptions C10_mcf_dist_is_capflow_cost.
+
+(* solver level, composed with the int32 chain, no open premise besides the per-case flag: below the
+   bound the number min_cost_flow.hpp as written for int returns is THE MINIMUM COST of the graph it
+   was given (attained by a non-negative conserving flow, and a lower bound for all of them) *)
+Theorem C10_mcf_int32_returns_min_cost : forall e c md x,
+  okp (min_cost_flow_p e c) = true ->
+  run wrap32 (min_cost_flow_p e c) = (0, md, x) ->
+  length c = length e ->
+  (forall l tc, In l c -> In tc l -> (fst tc < length e)%nat /\ 0 <= snd tc) ->
+  zsum e = 0 ->
+  forall r fl, mcf_iter_f ssp_levels (mcf_init e c) false = (r, fl) -> fl = false ->
+  let sk := sk_of c in
+  (exists f, (forall k, In k (idx sk) -> 0 <= f k) /\ (forall v, (v < length e)%nat -> gout sk f v = nz e v) /\ md = gcost sk f) /\
+  (forall g, (forall k, In k (idx sk) -> 0 <= g k) -> (forall v, (v < length e)%nat -> gout sk g v = nz e v) -> md <= gcost sk g).
+Proof. exact mcf_int32_returns_min_cost. Qed.
+Print Assumptions C10_mcf_int32_returns_min_cost.
+
+(* read_back, cell by cell (any x, any reduced record): every entry of the x lists is skipped or adds
+   +/- its flow to one cell (Proofs.EmdReadBack.rb_target mirrors the code), so an in-range cell of the
+   result is the cell of F0 plus the contributions aimed at it *)
+Theorem C10_read_back_cells : forall r x F0 i j, inr F0 i j = true ->
+  mz (read_back r x F0) i j = mz F0 i j + zsum (map (op_contrib (rb_target r) i j) (entries x)).
+Proof. exact read_back_cells. Qed.
+Print Assumptions C10_read_back_cells.
+
+(* per-cell read-back equality: at Done of the flagged run with the flag clear, what read_back adds to
+   an in-range cell (i, j) is the net CAPACITY flow of the node pairs u < v that the code maps to that
+   cell (sel r i j u v = 1 iff neither node is the threshold node, v is a sink and (old name of u,
+   old name of v - N), transposed when the problem was swapped, is (i, j)) *)
+Theorem C10_read_back_net_capacity : forall nv c e st fl r F0 i j, length c = nv -> length e = nv ->
+  (forall l tc, In l c -> In tc l -> (fst tc < nv)%nat /\ 0 <= snd tc) ->
+  mcf_iter_f ssp_levels (mcf_init e c) false = (MDone st, fl) -> fl = false ->
+  inr F0 i j = true ->
+  mz (read_back r (m_x st) F0) i j = mz F0 i j +
+    zsum (map (fun u => zsum (map (fun v =>
+       if (u <? v)%nat then sel r i j u v * (capto u (nth v (m_rb st) []) - capto v (nth u (m_rb st) [])) else 0)
+       (seq 0 nv))) (seq 0 nv)).
+Proof. exact read_back_net_capacity. Qed.
+Print Assumptions C10_read_back_net_capacity.
+
+(* the graph emd_hat_impl hands to min_cost_flow is well formed for every input of the wrapper's shape
+   with non-negative ground distances: one adjacency list per node, targets inside the graph,
+   non-negative costs (incl. max(C) >= 0), supplies cancel — the hypotheses of the solver theorems *)
+Theorem C10_reduce_wf : forall Pc Qc Cc emp, length Pc = length Qc -> (forall i j, 0 <= mz Cc i j) ->
+  let r := reduce Pc Qc Cc emp in
+  length (r_cc r) = length (r_bb r) /\
+  (forall l tc, In l (r_cc r) -> In tc l -> (fst tc < length (r_bb r))%nat /\ 0 <= snd tc) /\
+  zsum (r_bb r) = 0.
+Proof. exact reduce_wf. Qed.
+Print Assumptions C10_reduce_wf.
+
+(* the distance, end to end down to the reduced graph (full; premises: the per-case booleans only).
+   For non-negative ground distances, below the bound, a finished run of the int32 code as written
+   returns the answer (d, F, fl) of the flagged line-level model, and if fl is clear then
+       d = pre-flow cost + MINIMUM COST of the reduced graph + |sum P - sum Q| * penalty,
+   where the reduced graph is reduce's for the padded (and, for gd_metric, pre-flowed) arguments
+   (Proofs.EmdEndToEnd.call_args) and is_mincost e c m says: m is the cost of a non-negative flow with
+   balances e and no such flow is cheaper. *)
+Theorem C10_emd_int32_dist_below_bound : forall p q c pen ft gd d F, mat_nonneg c ->
   no_wrap_b p q c pen ft gd = true ->
   emd_int32_as_written p q c pen ft gd = (0, d, F) ->
-  (exists fl, emd_hat_int32_llf p q c pen ft gd = Some (d, F, fl)) /\
-  forall d' F', emd_hat_int32_llf p q c pen ft gd = Some (d', F', false) ->
-    (emd_hat_int32_llf p q c pen ft gd = Some (d', F', false) -> emd_spec p q c (penalty_of c pen) d') ->
-    d' = d /\ F' = F /\ emd_spec p q c (penalty_of c pen) d.
-Proof. exact emd_int32_correct_below_bound_partial. Qed.
+  exists fl, emd_hat_int32_llf p q c pen ft gd = Some (d, F, fl) /\
+    (fl = false ->
+     let '(Pc, Qc, Cc) := call_args p q c gd in
+     let r := reduce Pc Qc Cc (match pen with Some v => v | None => -1 end) in
+     exists md, is_mincost (r_bb r) (r_cc r) md /\ d = r_pre r + md + r_diff r * r_pen r).
+Proof. exact emd_int32_dist_below_bound. Qed.
+Print Assumptions C10_emd_int32_dist_below_bound.
+
+(* C10_emd_int32_correct_below_bound — PARTIAL, end to end.  FULL statement aimed at: below the bound,
+   a finished run of emd_hat / emd_hat_gd_metric as written for int32 returns the earth mover's distance.
+   PROVED: everything about the code — int32 semantics, the solver (heap, Dijkstra, potentials, pair
+   addressing, conservation, optimality of the capacity flow, x lists = capacities, returned distance
+   = minimum cost), the well-formedness of the reduced graph and the my_dist book-keeping.
+   REMAINING PREMISES, exactly: (i) flag clear (per case, never set);
+   (ii) graph_reduction_correct_on — a statement about `reduce` ONLY (no solver, no int32): pre-flow
+   cost + minimum cost of the reduced graph + |sum P - sum Q| * penalty is the EMD of the call
+   (thresholding through the transhipment node, removal of empty / isolated bins, swap, padding,
+   metric pre-flow).  OPEN; the per-case certificate check of the implementation's output and the
+   in-model certificate of C10_model_emd_correct stand in for it. *)
+Theorem C10_emd_int32_correct_below_bound_partial : forall p q c pen ft gd d F, mat_nonneg c ->
+  no_wrap_b p q c pen ft gd = true ->
+  emd_int32_as_written p q c pen ft gd = (0, d, F) ->
+  (forall fl, emd_hat_int32_llf p q c pen ft gd = Some (d, F, fl) -> fl = false) ->
+  graph_reduction_correct_on p q c pen gd ->
+  emd_spec p q c (penalty_of c pen) d.
+Proof. exact emd_int32_correct_below_bound_partial2. Qed.
 Print Assumptions C10_emd_int32_correct_below_bound_partial.
+
+(* C10_mcf_no_fail_if_flag_clear — PARTIAL.  FULL statement aimed at: a step of the flagged run whose
+   flag is clear never returns MFail.  PROVED (everything but the search): with the flag clear the walk
+   along prev reaches the start node within nv hops through finalized nodes, every hop is a residual
+   arc, hence x[from] has an entry pointing at `to` (forward entry of an arc from->to or reverse entry
+   of an arc to->from; the skeleton of x never changes) — scan_delta and augment cannot fail; and the
+   node compute_shortest_path returns has negative excess, so it is never the start node.  A failing
+   step with a clear flag is therefore a step whose compute_shortest_path returned None.
+   MISSING: lemma csp_total (under the Dijkstra invariant J the loop never leaves the heap's index
+   range — per-operation halves: C10_heap_*_safe —, and a node of negative excess is popped before the
+   heap is empty and within nv+1 iterations: all nodes start in the heap, supplies cancel). *)
+Theorem C10_mcf_no_fail_if_flag_clear_partial : forall nv c st, length c = nv ->
+  (forall l tc, In l c -> In tc l -> (fst tc < nv)%nat /\ 0 <= snd tc) ->
+  RunInv nv c st -> skel_x (m_x st) = skel_x (x_of nv (mk_arcs c)) ->
+  step_flag st = false -> mcf_step st = MFail ->
+  compute_shortest_path nv (m_d st) (m_prev st) (snd (pick_supply (m_e st) O 0 O)) (m_rf st) (m_rb st) (m_e st) = None.
+Proof. exact step_fail_only_in_search. Qed.
+Print Assumptions C10_mcf_no_fail_if_flag_clear_partial.
